@@ -93,3 +93,36 @@ def point(name):
     w = getattr(_local, 'worker', None)
     if w is not None:
         w.point(name)
+
+
+class CoopRLock(object):
+    """a re-entrant lock under the cooperative scheduler: taking it is a scheduling point; a thread that finds it held
+    by another thread parks (`lock-wait`) and must not be granted before the holder released it (see `blocked`)"""
+
+    def __init__(self):
+        self.owner, self.depth = None, 0
+
+    def acquire(self, blocking=True, timeout=-1):
+        me = getattr(_local, 'worker', None)
+        if me is not None and self.owner is me:
+            self.depth += 1
+            return True
+        point('lock')
+        while self.owner is not None:
+            if not blocking:
+                return False
+            point('lock-wait')
+        self.owner, self.depth = me, 1
+        return True
+
+    def release(self):
+        self.depth -= 1
+        if self.depth == 0:
+            self.owner = None
+
+    def __enter__(self):
+        self.acquire()
+        return self
+
+    def __exit__(self, *a):
+        self.release()
